@@ -57,17 +57,22 @@ Proof.
 Qed.
 
 (* ---------- `#define NAME body` builds omacro ---------- *)
-Lemma preproc_plain rest : forall fuel acc cat need,
+Lemma preproc_plain rest : forall fuel acc cat,
   List.length rest < fuel -> (forall t, In t rest -> is_txt "##" t = false) ->
-  preproc fuel false [] rest acc cat need = Ok (acc ++ rest, cat, need).
+  preproc fuel false [] rest acc cat = Ok (acc ++ rest, cat).
 Proof.
-  induction rest as [|t r IH]; intros fuel acc cat need Hf Hc; (destruct fuel as [|f]; [cbn in Hf; lia|]); cbn [preproc].
+  induction rest as [|t r IH]; intros fuel acc cat Hf Hc; (destruct fuel as [|f]; [cbn in Hf; lia|]); cbn [preproc].
   - now rewrite app_nil_r.
   - rewrite (Hc t (or_introl eq_refl)).
     assert (Hr : forall x, In x r -> is_txt "##" x = false) by (intros x Hx; apply Hc; now right).
     assert (Hf' : List.length r < f) by (cbn in Hf; lia).
-    destruct (is_txt "#" t); [rewrite IH by assumption; now rewrite <- app_assoc|].
-    destruct (is_id t); cbn [which_arg]; rewrite IH by assumption; now rewrite <- app_assoc.
+    destruct (is_txt "#" t); rewrite IH by assumption; now rewrite <- app_assoc.
+Qed.
+
+Lemma needs_scan_objlike l : forall prev, needs_scan false [] prev l [] = [].
+Proof.
+  induction l as [|t r IH]; intros prev; cbn [needs_scan]; [reflexivity|].
+  destruct (is_id t); cbn [which_arg]; apply IH.
 Qed.
 
 Lemma last_tok_In l x : last_tok l = Some x -> In x l.
@@ -91,7 +96,7 @@ Proof.
   2:{ unfold last_tok in El. cbn [rev] in El. destruct (rev r0); discriminate. }
   rewrite (Hc tl (last_tok_In _ _ El)).
   rewrite preproc_plain.
-  - reflexivity.
+  - cbn [map app]. now rewrite needs_scan_objlike.
   - cbn. lia.
   - intros x [<-|Hx]; [exact (Hc t0 (or_introl eq_refl))|apply Hc; now right].
 Qed.
